@@ -16,7 +16,8 @@ out="$VERIF"/seeded/RESULTS.tsv
 for id in "${ids[@]}"; do
   p="$VERIF"/seeded/$id/patch.diff
   if ! git -C "$REPO" apply "$p"; then echo "$id: patch does not apply"; continue; fi
-  row="$id\t$TIER${VERIF_SEED:+/seed$VERIF_SEED}"
+  label="${SWEEP_LABEL:-$TIER${VERIF_SEED:+/seed$VERIF_SEED}}"
+  row="$id\t$label"
   target=$(echo "$id" | sed 's/^S-\(C[0-9]*\)-.*/\1/')
   for prop in C02 C04 C05 C13 C14 C17; do
     if [ $TARGET_ONLY -eq 1 ] && [ "$prop" != "$target" ]; then row="$row\t."; continue; fi
@@ -30,7 +31,7 @@ for id in "${ids[@]}"; do
     fi
   done
   git -C "$REPO" checkout -- .
-  awk -F'\t' -v n="$id" -v t="$TIER${VERIF_SEED:+/seed$VERIF_SEED}" '!($1==n && $2==t)' "$out" > "$out.tmp"; mv "$out.tmp" "$out"
+  awk -F'\t' -v n="$id" -v t="$label" '!($1==n && $2==t)' "$out" > "$out.tmp"; mv "$out.tmp" "$out"
   printf "$row\n" | tee -a "$out"
 done
 rm -f "$VERIF"/replays/*.json
